@@ -250,9 +250,29 @@ def c04(tier):
         tasks += walk_tasks(Q(tier, 20000, 300000), "six")
         tasks += char_tasks(Q(tier, 60000, 1000000), "six")
         tasks += seed_tasks("wide" if tier == "thorough" else "six")
-        tasks += split_tasks("scaled", {"max_k": Q(tier, 30, 60)}, Q(tier, 30, 60) * 13, [], "six", chunks=16)
         tasks += texts_tasks(dirblock_programs(c, tier), "six", chunks=32, cfg_mode="rotate")
         c.explore(tasks, f"soup_{label}", props, vh=vh, timeout_ms=Q(tier, 2000, 10000), sample_cap=Q(tier, 60, 300))
+        # scaled shapes (hundreds of sections, thousands of statements): the time limit grows with the input, polynomially
+        # (the monitors of the harness run inside the same limit)
+        c.explore(split_tasks("scaled", {"max_k": Q(tier, 30, 60)}, Q(tier, 30, 60) * 13, [], "six", chunks=16), f"scaled_{label}", props, vh=vh, timeout_ms=Q(tier, 30000, 60000), sample_cap=Q(tier, 10, 40))
+    # very deep nesting through the command line (a stack overflow kills the process: it cannot be observed in-process)
+    import cli, subprocess as sp
+    build(("cli",))
+    os.makedirs(cli.CLI_ROOT, exist_ok=True)
+    for shape, mk in (("begin", lambda n: "begin " * n + "x;" + " end;" * n + "\n"), ("paren", lambda n: "x := " + "(" * n + "1" + ")" * n + ";\n"),
+                      ("ifthen", lambda n: "if a then " * n + "x;\n"), ("record", lambda n: "type T = " + "record a: " * n + "Integer;" + " end;" * n + "\n")):
+        for n in Q(tier, [300, 1000, 2500, 5000, 20000], [300, 1000, 2500, 5000, 10000, 20000, 50000]):
+            try:
+                r = sp.run([PASFMT], input=mk(n).encode(), stdout=sp.PIPE, stderr=sp.PIPE, cwd=cli.CLI_ROOT, timeout=Q(tier, 120, 600))
+                rc, err = r.returncode, r.stderr[-160:].decode(errors="replace")
+            except sp.TimeoutExpired:
+                rc, err = -999, "timeout"
+            c.evaluations += 1
+            c.nontrivial += 1
+            if rc != 0:
+                site = " [site: more than 4000 nested constructs]" if n > 4000 else ""
+                c.add_violation({"prop": "C04", "clause": "abort" if rc != -999 else "hang", "detail": f"{n} nested `{shape}` constructs: exit status {rc}: {' '.join(err.split())[-140:]}{site}",
+                                 "case": {"label": f"deep:{shape}:{n}", "text": mk(n)[:200]}, "confirmed_by_tlc": True})
     c.exhaustive = True
     return c.finish(
         rule="every sequence of <= 2 tokens over the full alphabet of Soup.tla and <= 3 over the structural one (thorough: 3 / 4), x 2 separators, "
